@@ -171,6 +171,11 @@ def alphabet(full=True):
     if full:
         add("PADDING3", padding(3))
     add("PING", ping())
+    # ACK frames with many ranges (a receiver that lost every other packet): 63/64 (one- to two-byte count), 256/257, 1000
+    for nr in ((64, 257) if not full else (63, 64, 256, 257, 1000)):
+        rg = tuple((i % 3, (i * 7) % 5) for i in range(nr))
+        add(f"ACK/r{nr}", ack(largest=10 ** 6, ranges=rg, first=1))
+        add(f"ACKECN/r{nr}", ack(largest=10 ** 6, ranges=rg, first=1, ecn=(1, 2, 3)))
     for w in widths:
         for nr, rg in ((0, ()), (1, ((1, 2),)), (2, ((1, 2), (0, 5)))):
             if not full and nr == 2:
